@@ -29,38 +29,47 @@ NormL(j) == [s \in Srv |-> [sh \in Shnums |->
 NormM(j) == [s \in Srv |-> [sh \in Shnums |->
                IF s \in DOMAIN j /\ ToString(sh) \in DOMAIN j[s] THEN j[s][ToString(sh)] ELSE 0]]
 
-R(c, s) == [c |-> c, s |-> s]
+CONSTANT Focus       \* "C10" | "C11" | "C14": clauses of the other properties do not stop the replay; "ALL": every clause does
+R(p, c, s) == [p |-> p, c |-> IF p = "harness" THEN c ELSE p \o "_" \o c, s |-> s]
+OK(s) == [p |-> "", c |-> "", s |-> s]
+Rel(p) == Focus = "ALL" \/ p = Focus
 
 PublishedContents == {V[v].content : v \in OwnerVersions(V)}
 IntactShnums(L, v, Q) == {sh \in Shnums : \E s \in Q : L[s][sh] = [v |-> v, cls |-> "intact"]}
-Available(L, Q) == Newest(V) # 0 /\ Cardinality(IntactShnums(L, Newest(V), Q)) >= K
+CleanFor(L, v, s) == \A sh \in Shnums : (MayAccept(V, L[s][sh]) /\ L[s][sh].v = v) => BodyValid(L[s][sh])
+CleanIntactShnums(L, v, Q) == {sh \in Shnums : \E s \in Q : L[s][sh] = [v |-> v, cls |-> "intact"] /\ CleanFor(L, v, s)}
+Available(L, Q) == Newest(V) # 0 /\ Cardinality(CleanIntactShnums(L, Newest(V), Q)) >= K
 
 \* structural cause of an availability failure, so that a known defect does not hide others
 HasOffsBad(L, up) == \E s \in up, sh \in Shnums : L[s][sh].cls = "offsbad"
 HasDupCorrupt(L, up) == \E sh \in Shnums : \E s1, s2 \in up :
-    s1 # s2 /\ Present(L[s1][sh]) /\ Present(L[s2][sh]) /\ L[s1][sh].v = L[s2][sh].v /\ MayAccept(V, L[s1][sh]) /\ ~BodyValid(L[s1][sh])
+    s1 # s2 /\ MayAccept(V, L[s1][sh]) /\ MayAccept(V, L[s2][sh]) /\ L[s1][sh].v = L[s2][sh].v /\ ~BodyValid(L[s1][sh])
 Cause(L, up) == IF HasOffsBad(L, up) THEN "_offsets_variant"
                 ELSE IF HasDupCorrupt(L, up) THEN "_dup_shnum_corrupt_copy" ELSE ""
+LiveCause(L, up) == IF HasDupCorrupt(L, up) THEN "_dup_shnum_corrupt_copy"
+                    ELSE IF HasOffsBad(L, up) THEN "_offsets_variant" ELSE ""
 
-VLayout(e) == R("", [L |-> NormL(e.L), up |-> ToSet(e.up), maps |-> <<>>, nv |-> e.nv])
+VLayout(e) == OK([L |-> NormL(e.L), up |-> ToSet(e.up), maps |-> <<>>, nv |-> e.nv])
 
 VMap(e) ==
   LET M == NormM(e.M)
       Q == ToSet(e.Q)
       L == S.L
-  IN IF ~(Q \subseteq S.up) THEN R("harness_query_outside_up", S)
-     ELSE IF \E s \in Srv, sh \in Shnums : M[s][sh] # 0 /\ ~(s \in Q /\ MayAccept(V, L[s][sh]) /\ M[s][sh] = L[s][sh].v)
-          THEN R("C10_map_accepts_invalid", S)
-     ELSE IF \E s \in Q, sh \in Shnums : MustAccept(V, L[s][sh]) /\ M[s][sh] # L[s][sh].v
-          THEN R("C10_map_drops_valid", S)
-     ELSE IF e.mode = "READ" /\ Q # S.up /\ (Cardinality(Q) < 2 * K \/ Recoverable(M) = {})
-          THEN R("C11_KeepLooking_too_few", S)
-     ELSE IF e.mode = "READ" /\ Q # S.up /\ UnrecNewer(V, M) # {}
-          THEN R("C11_KeepLooking_newer_known", S)
-     ELSE IF e.mode \in {"CHECK", "REPAIR"} /\ Q # S.up
-          THEN R("C14_survey_not_complete", S)
-     ELSE IF e.best # Best(V, M) THEN R("C11_best_not_max", S)
-     ELSE R("", [S EXCEPT !.maps = Append(S.maps, [mode |-> e.mode, Q |-> Q, M |-> M])])
+      oc == IF HasOffsBad(L, S.up) THEN "_offsets_variant" ELSE ""
+      T == [S EXCEPT !.maps = Append(S.maps, [mode |-> e.mode, Q |-> Q, M |-> M])]
+  IN IF ~(Q \subseteq S.up) THEN R("harness", "harness_query_outside_up", S)
+     ELSE IF Rel("C10") /\ \E s \in Srv, sh \in Shnums : M[s][sh] # 0 /\ ~(s \in Q /\ MayAccept(V, L[s][sh]) /\ M[s][sh] = L[s][sh].v)
+          THEN R("C10", "map_accepts_invalid", T)
+     ELSE IF Rel("C10") /\ \E s \in Q, sh \in Shnums : MustAccept(V, L[s][sh]) /\ M[s][sh] # L[s][sh].v
+          THEN R("C10", "map_drops_valid", T)
+     ELSE IF Rel("C11") /\ e.mode = "READ" /\ Q # S.up /\ (Cardinality(Q) < 2 * K \/ Recoverable(M) = {})
+          THEN R("C11", "KeepLooking_too_few", T)
+     ELSE IF Rel("C11") /\ e.mode = "READ" /\ Q # S.up /\ UnrecNewer(V, M) # {}
+          THEN R("C11", "KeepLooking_newer_known", T)
+     ELSE IF Rel("C14") /\ e.mode \in {"CHECK", "REPAIR"} /\ Q # S.up
+          THEN R("C14", "survey_not_complete", T)
+     ELSE IF Rel("C11") /\ e.best # Best(V, M) THEN R("C11", "best_not_max" \o oc, T)
+     ELSE OK(T)
 
 VRead(e) ==
   LET maps == S.maps
@@ -70,18 +79,18 @@ VRead(e) ==
       cause == Cause(L, S.up)
       T == [S EXCEPT !.maps = <<>>]
       b == Best(V, ml.M)
-  IN IF maps = <<>> \/ m1.mode # "READ" THEN R("harness_no_read_map", S)
-     ELSE IF e.res.kind = "livelock" THEN R("C10_read_never_returns" \o cause, S)
+  IN IF maps = <<>> \/ m1.mode # "READ" THEN R("harness", "harness_no_read_map", S)
+     ELSE IF Rel("C10") /\ (e.res.kind = "livelock") THEN R("C10", "read_never_returns" \o LiveCause(L, S.up), T)
      ELSE IF e.res.kind = "data" THEN
-          (IF e.res.content \notin PublishedContents THEN R("C10_OnlyPublished", S)
-           ELSE IF Available(L, m1.Q) /\ e.res.content # V[Newest(V)].content THEN R("C10_Available" \o cause, S)
-           ELSE IF b = 0 \/ V[b].content # e.res.content THEN R("C11_ReadBest", S)
-           ELSE IF ~RetrieveMaybe(L, ml.M, b) THEN R("C10_read_used_invalid_shares", S)
-           ELSE R("", T))
+          (IF Rel("C10") /\ (e.res.content \notin PublishedContents) THEN R("C10", "OnlyPublished", T)
+           ELSE IF Rel("C10") /\ (Available(L, m1.Q) /\ e.res.content # V[Newest(V)].content) THEN R("C10", "Available" \o cause, T)
+           ELSE IF Rel("C11") /\ (b = 0 \/ V[b].content # e.res.content) THEN R("C11", "ReadBest", T)
+           ELSE IF Rel("C10") /\ (~RetrieveMaybe(L, ml.M, b)) THEN R("C10", "read_used_invalid_shares", T)
+           ELSE OK(T))
      ELSE \* error
-          (IF Available(L, m1.Q) THEN R("C10_Available" \o cause, S)
-           ELSE IF RetrieveOK(L, ml.M, b) THEN R("C11_read_error_unexplained" \o cause, S)
-           ELSE R("", T))
+          (IF Rel("C10") /\ (Available(L, m1.Q)) THEN R("C10", "Available" \o cause, T)
+           ELSE IF Rel("C11") /\ (RetrieveOK(L, ml.M, b)) THEN R("C11", "read_error_unexplained" \o cause, T)
+           ELSE OK(T))
 
 LastOfMode(maps, mode) ==
   LET idx == {i \in 1..Len(maps) : maps[i].mode = mode} IN IF idx = {} THEN 0 ELSE SetMax(idx)
@@ -90,14 +99,15 @@ VCheck(e) ==
   LET i == LastOfMode(S.maps, "CHECK")
       M == S.maps[i].M
       outs == CheckOutcomes(V, S.L, M, e.verify)
-      cause == IF HasDupCorrupt(S.L, S.up) THEN "_dup_shnum_corrupt_copy" ELSE ""
+      cause == IF e.verify /\ Best(V, M) # 0 /\ Cardinality(MustFlag(S.L, M, Best(V, M))) >= 2 THEN "_verify_skips_after_corrupt"
+               ELSE IF HasDupCorrupt(S.L, S.up) THEN "_dup_shnum_corrupt_copy" ELSE ""
       T == [S EXCEPT !.maps = <<>>]
-  IN IF i = 0 THEN R("harness_no_check_map", S)
-     ELSE IF e.res = "livelock" THEN R("C14_check_never_returns" \o cause, S)
-     ELSE IF e.healthy /\ (TRUE \notin {o.healthy : o \in outs}) THEN R("C14_Health_false_healthy" \o cause, S)
-     ELSE IF ~e.healthy /\ (FALSE \notin {o.healthy : o \in outs}) THEN R("C14_Health_false_unhealthy" \o cause, S)
-     ELSE IF [healthy |-> e.healthy, recoverable |-> e.recoverable] \notin outs THEN R("C14_recoverable_flag", S)
-     ELSE R("", T)
+  IN IF i = 0 THEN R("harness", "harness_no_check_map", S)
+     ELSE IF Rel("C14") /\ (e.res = "livelock") THEN R("C14", "check_never_returns" \o cause, T)
+     ELSE IF Rel("C14") /\ (e.healthy /\ (TRUE \notin {o.healthy : o \in outs})) THEN R("C14", "Health_false_healthy" \o cause, T)
+     ELSE IF Rel("C14") /\ (~e.healthy /\ (FALSE \notin {o.healthy : o \in outs})) THEN R("C14", "Health_false_unhealthy" \o cause, T)
+     ELSE IF Rel("C14") /\ ([healthy |-> e.healthy, recoverable |-> e.recoverable] \notin outs) THEN R("C14", "recoverable_flag" \o cause, T)
+     ELSE OK(T)
 
 VRepair(e) ==
   LET maps == S.maps
@@ -108,34 +118,34 @@ VRepair(e) ==
       retr == j # 0 /\ b \in Recoverable(maps[j].M) /\ RetrieveOK(S.L, maps[j].M, b)
       cause == IF HasDupCorrupt(S.L, S.up) THEN "_dup_shnum_corrupt_copy" ELSE ""
       T == [S EXCEPT !.maps = <<>>]
-  IN IF maps = <<>> \/ maps[1].mode # "REPAIR" THEN R("harness_no_repair_map", S)
-     ELSE IF dec = "mustforce" /\ e.res # "mustforce" THEN
-          (IF UnrecNewer(V, Mr) # {} THEN R("C14_NoDiscardNewer", S) ELSE R("C14_NoPickCompetitor", S))
-     ELSE IF e.res = "mustforce" /\ dec # "mustforce" THEN R("C14_refused_without_cause", S)
-     ELSE IF e.res # "ok" /\ e.post.changed THEN R("C14_failed_repair_changed_shares", S)
-     ELSE IF dec = "unsuccessful" /\ e.res # "unsuccessful" THEN R("C14_unsuccessful_flag", S)
-     ELSE IF e.res = "unsuccessful" /\ dec # "unsuccessful" THEN R("C14_unsuccessful_flag", S)
-     ELSE IF e.res = "livelock" THEN R("C14_repair_never_returns" \o cause, S)
+  IN IF maps = <<>> \/ maps[1].mode # "REPAIR" THEN R("harness", "harness_no_repair_map", S)
+     ELSE IF Rel("C14") /\ dec = "mustforce" /\ e.res # "mustforce" THEN
+          (IF UnrecNewer(V, Mr) # {} THEN R("C14", "NoDiscardNewer", T) ELSE R("C14", "NoPickCompetitor", T))
+     ELSE IF Rel("C14") /\ (e.res = "mustforce" /\ dec # "mustforce") THEN R("C14", "refused_without_cause", T)
+     ELSE IF Rel("C14") /\ (e.res # "ok" /\ e.post.changed) THEN R("C14", "failed_repair_changed_shares", T)
+     ELSE IF Rel("C14") /\ (dec = "unsuccessful" /\ e.res # "unsuccessful") THEN R("C14", "unsuccessful_flag", T)
+     ELSE IF Rel("C14") /\ (e.res = "unsuccessful" /\ dec # "unsuccessful") THEN R("C14", "unsuccessful_flag", T)
+     ELSE IF Rel("C14") /\ (e.res = "livelock") THEN R("C14", "repair_never_returns" \o cause, T)
      ELSE IF dec = "go" /\ e.res = "error" THEN
-          (IF retr THEN R("C14_repair_failed_unexpectedly" \o cause, S) ELSE R("", T))
+          (IF Rel("C14") /\ (retr) THEN R("C14", "repair_failed_unexpectedly" \o cause, T) ELSE OK(T))
      ELSE IF dec = "go" /\ e.res = "ok" THEN
-          (IF e.post.content # V[b].content THEN R("C14_RepairPreserves_content", S)
-           ELSE IF e.post.nnew # N THEN R("C14_RepairPreserves_shares", S)
-           ELSE IF e.post.newseq <= MaxSeq(V, Mr) THEN R("C14_RepairPreserves_seq", S)
-           ELSE IF e.post.stale # 0 THEN R("C14_RepairPreserves_stale_left", S)
-           ELSE R("", T))
-     ELSE R("", T)
+          (IF Rel("C14") /\ (e.post.content # V[b].content) THEN R("C14", "RepairPreserves_content", T)
+           ELSE IF Rel("C14") /\ (e.post.nnew # N) THEN R("C14", "RepairPreserves_shares", T)
+           ELSE IF Rel("C14") /\ (e.post.newseq <= MaxSeq(V, Mr)) THEN R("C14", "RepairPreserves_seq", T)
+           ELSE IF Rel("C14") /\ (e.post.stale # 0) THEN R("C14", "RepairPreserves_stale_left", T)
+           ELSE OK(T))
+     ELSE OK(T)
 
 VPublish(e) ==
   LET i == LastOfMode(S.maps, "WRITE")
       Q == S.maps[i].Q
       T == [S EXCEPT !.maps = <<>>]
-  IN IF e.res # "ok" THEN R("", T)
-     ELSE IF i = 0 THEN R("harness_no_write_map", S)
-     ELSE IF \E s \in Q, sh \in Shnums : MustAccept(V, S.L[s][sh]) /\ V[S.L[s][sh].v].seq >= e.newseq
-          THEN R("C11_Monotone", S)
-     ELSE IF e.newseq # MaxSeq(V, S.maps[i].M) + 1 THEN R("C11_Monotone_successor", S)
-     ELSE R("", T)
+  IN IF e.res # "ok" THEN OK(T)
+     ELSE IF i = 0 THEN R("harness", "harness_no_write_map", S)
+     ELSE IF Rel("C11") /\ \E s \in Q, sh \in Shnums : MustAccept(V, S.L[s][sh]) /\ V[S.L[s][sh].v].seq >= e.newseq
+          THEN R("C11", "Monotone", T)
+     ELSE IF Rel("C11") /\ (e.newseq # MaxSeq(V, S.maps[i].M) + 1) THEN R("C11", "Monotone_successor", T)
+     ELSE OK(T)
 
 Verdict(e) ==
   CASE e.ev = "Layout"  -> VLayout(e)
@@ -144,7 +154,7 @@ Verdict(e) ==
     [] e.ev = "Check"   -> VCheck(e)
     [] e.ev = "Repair"  -> VRepair(e)
     [] e.ev = "Publish" -> VPublish(e)
-    [] OTHER            -> R("unknown_event", S)
+    [] OTHER            -> R("harness", "unknown_event", S)
 
 TraceInit ==
   /\ tid \in 1..Len(Traces)
